@@ -44,7 +44,7 @@ func init() {
 		Level: "fault_enumeration",
 		Rule: "table of blocking API calls (chain-sync NtC/NtN Sync, GetCurrentTip, GetAvailableBlockRange, Stop; block-fetch GetBlock, GetBlockRange, Stop; tx-submission server RequestTxIds (blocking / non-blocking), RequestTxs; local-state-query Acquire, Release, GetCurrentEra, GetSystemStart, GetChainPoint, GetEpochNo; local-tx-monitor Acquire, HasTx, NextTx, GetSizes, Release; local-tx-submission SubmitTx; peer-sharing GetPeers; keep-alive client ping; serving chain-sync / block-fetch / keep-alive / peer-sharing responders incl. restart on Done; DMQ connect) " +
 			"x peer behaviours, each applied at a reply position of the scripted correct conversation: correct; every OTHER message the library's own state map admits in that state; the reply twice; the last reply again after the conversation returned to idle; one / 600 unsolicited replies before the call; garbage (invalid CBOR, not an array, unknown message type, right type with wrong fields, empty array); a segment holding half a message; a zero-length segment; silence then close; close before the call and at every message boundary; close mid-segment and mid-header; Connection.Close() by the harness before the call / while the call waits; plus special scripts (muxer unregister race held open with the afterLookup hook; Server.Start twice in a sub-process). " +
-			"Quick: every other-message at every position, the remaining classes at the last reply position, two close boundaries, timeouts alternating between one hour and 250 ms. Thorough: every position x every variant x both timeout settings x 3 repetitions, two of them with schedule perturbation at the protocol / muxer hook points. A scenario is non-trivial when the handshake completed and the oracle was evaluated to the end; distinct by (call, behaviour, timeout setting, perturbation)",
+			"Quick: the first other-message at every reply position, the remaining classes at the last reply position, two close boundaries plus close before the call, timeouts alternating between one hour and 250 ms. Thorough: every position x every variant x both timeout settings x 3 repetitions, two of them with schedule perturbation at the protocol / muxer hook points. A scenario is non-trivial when the handshake completed and the oracle was evaluated to the end; distinct by (call, behaviour, timeout setting, perturbation)",
 		MinNontrivial: 300,
 		RaceAnchors:   []string{"(*Connection).shutdown", "(*Connection).Close", "protocol.(*Protocol).Stop", "muxer.(*Muxer).UnregisterProtocol"},
 		Assumptions: []string{
